@@ -202,19 +202,26 @@ def analyze(template: BoundTemplate, *, include_partials: bool) -> TemplateAnaly
                 else str(partial.name.evaluate(static_context))
             )
 
+            # An inline snippet has no template name of its own. Identify it by the
+            # block it resolves to, so one snippet does not stand in for another.
+            seen_name = partial_name
+            if not partial_name:
+                snippet = list(node.children(static_context, include_partials=include_partials))
+                seen_name = f"\0{id(snippet[0]) if snippet else 0}"
+
             # If we've seen this partial before but with different arguments,
             # we might want to visit it again but only capture globals.
-            _just_globals = partial_name in seen
+            _just_globals = seen_name in seen
             visible = set(partial.in_scope)
             if partial.scope != PartialScope.ISOLATED:
                 visible.update(*scope.stack)
             partial_key = (partial.key, frozenset(visible))
-            if partial_key in seen[partial_name]:
+            if partial_key in seen[seen_name]:
                 # We've visited this partial template before with the same
                 # arguments and the same names in scope.
                 return
 
-            seen[partial_name].add(partial_key)
+            seen[seen_name].add(partial_key)
             partial_name = partial_name or template_name
 
             partial_scope = (
@@ -230,10 +237,9 @@ def analyze(template: BoundTemplate, *, include_partials: bool) -> TemplateAnaly
                     child,
                     partial_name,
                     partial_scope,
-                    # A named partial that has not been seen before is visited in
-                    # full, even while revisiting its parent for globals only.
-                    just_globals=_just_globals
-                    or (just_globals and not partial.name),
+                    # A partial that has not been seen before is visited in full,
+                    # even while revisiting its parent for globals only.
+                    just_globals=_just_globals,
                 )
 
             partial_scope.pop()
@@ -336,19 +342,26 @@ async def analyze_async(
                 else str(partial.name.evaluate(static_context))
             )
 
+            # An inline snippet has no template name of its own. Identify it by the
+            # block it resolves to, so one snippet does not stand in for another.
+            seen_name = partial_name
+            if not partial_name:
+                snippet = list(await node.children_async(static_context, include_partials=include_partials))
+                seen_name = f"\0{id(snippet[0]) if snippet else 0}"
+
             # If we've seen this partial before but with different arguments,
             # we might want to visit it again but only capture globals.
-            _just_globals = partial_name in seen
+            _just_globals = seen_name in seen
             visible = set(partial.in_scope)
             if partial.scope != PartialScope.ISOLATED:
                 visible.update(*scope.stack)
             partial_key = (partial.key, frozenset(visible))
-            if partial_key in seen[partial_name]:
+            if partial_key in seen[seen_name]:
                 # We've visited this partial template before with the same
                 # arguments and the same names in scope.
                 return
 
-            seen[partial_name].add(partial_key)
+            seen[seen_name].add(partial_key)
             partial_name = partial_name or template_name
 
             partial_scope = (
@@ -364,10 +377,9 @@ async def analyze_async(
                     child,
                     partial_name,
                     partial_scope,
-                    # A named partial that has not been seen before is visited in
-                    # full, even while revisiting its parent for globals only.
-                    just_globals=_just_globals
-                    or (just_globals and not partial.name),
+                    # A partial that has not been seen before is visited in full,
+                    # even while revisiting its parent for globals only.
+                    just_globals=_just_globals,
                 )
 
             partial_scope.pop()
